@@ -92,6 +92,7 @@ def plan(tier, seed):
             rf["sonar.json"] = json.dumps({"hotspots": [{"rule": "python:S2245", "status": "OPEN", "component": "proj:" + rel, "textRange": {"startLine": 2, "endLine": 2, "startOffset": 0, "endOffset": 15}} for rel in cands]})
             argv += ["--sonar-hotspots-json", "{res}/sonar.json", "--codemod-include", "sonar:python/secure-random"]
         else: argv += ["--codemod-include", "pixee:python/requests-verify" if mode == "semgrep" else "pixee:python/use-set-literal"]
+        if k % 2: argv += ["--max-workers", str(rnd.choice((2, 3, 4, 5, 8)))]      # the selection does not depend on how the work is spread over workers
         if inc: argv += ["--path-include", ",".join(inc)]
         if exc: argv += ["--path-exclude", ",".join(exc)]
         jobs.append({"id": f"t{k}", "files": fs, "outside": outside, "result_files": rf, "argv": argv, "include": inc, "exclude": exc, "sast": sast, "mode": mode, "target": target, "proj_under": under, "trig": files, "monitors": {"snap": False, "fs": True}})
